@@ -282,7 +282,7 @@ func splitLines(s string) []string {
 			cur = ""
 			continue
 		}
-		cur += string(s[i])
+		cur += s[i : i+1]
 	}
 	return append(out, cur)
 }
